@@ -34,6 +34,7 @@ WEAK = {
     "NewValidBlockIgnored": {"GossipComplete", "StepProps"},
     "InitMarksPartsHad": {"PeerStateSound", "GossipComplete"},
     "VoteMarkedBeforeRoundCheck": {"PeerStateSound"},
+    "ClaimAppliedInReceive": {"StepProps"},
 }
 GAPS = ["G1", "G2", "G3", "G4", "G5", "G6"]     # G3: reachability witness (NoG3AtRest must be refuted), the others: un-exempted
 ROUTINES = ["data", "votes", "maj23"]
